@@ -56,6 +56,34 @@ func suiteC04(s *Suite, rng *Rng, tier string) {
 			s.Add(402, "undisclosed", n <= 3, L{d, n}, okV(gabi.VerifGetUndisclosedAttributes(d, n)))
 		}
 	}
+	// completeness at the size limits of every supported parameter set: a prover whose randomizers have the full length the
+	// key's parameters allow (as the keyshare server's randomizer has under a 2048-bit key) still gets its proof accepted
+	for _, kp := range append(append([]*KeyPair{}, keys...), makeKey(2048, 0, 7, rng, false)) {
+		if kp.Bits < 1024 {
+			continue
+		}
+		cred := makeCredential(kp, newSecret(rng), 3, rng)
+		for _, disclosed := range [][]int{{}, {2}, {1, 3}} {
+			b, err := cred.CreateDisclosureProofBuilder(disclosed, nil, false)
+			if err != nil {
+				panic(err)
+			}
+			big0 := rng.Bits(int(kp.Pk.Params.LmCommit))
+			big0.SetBit(big0, int(kp.Pk.Params.LmCommit)-1, 1)
+			list, err := b.Commit(map[string]*gbig.Int{"secretkey": big0})
+			if err != nil {
+				panic(err)
+			}
+			ctx, nonce := rng.Bits(200), rng.Bits(80)
+			c := gabi.VerifCreateChallenge(ctx, nonce, list, false)
+			p := b.CreateProof(c).(*gabi.ProofD)
+			_, acc, _ := verifyCase(s, fmt.Sprintf("%d:full-length-secret-randomizer", kp.Bits), false, []*gabikeys.PublicKey{kp.Pk}, ctx, nonce, false, nil, gabi.ProofList{p})
+			s.Nontrivial[fmt.Sprint("fullrand", kp.Bits, disclosed)] = true
+			if !acc {
+				s.Violate("C04:honest-proof-rejected-at-size-limit", fmt.Sprintf("%d-bit key: a proof whose secret-key randomizer has the full %d bits the parameters allow is rejected", kp.Bits, kp.Pk.Params.LmCommit), L{kp.Bits, disclosed})
+			}
+		}
+	}
 	for _, kp := range keys {
 		for k := 1; k <= maxK; k++ {
 			if kp.Bits >= 1024 && k > 3 && tier != "thorough" {
